@@ -94,6 +94,25 @@ func runC02(r *Run) {
 					"acceptance or the next segment is reachable after a constraint refused: "+pathString(r.P, path))
 			}
 		}
+		// the value handed to CheckConstraint is the captured value that Params will report (a load of params[k] or a
+		// slice of the `path` argument) — not the case-folded detection copy
+		for i, c := range cc {
+			arg := c.Common.Args[1]
+			fromParams := dependsOn(arg, func(v ssa.Value) bool {
+				if ia, ok := v.(*ssa.IndexAddr); ok {
+					p, isP := ia.X.(*ssa.Parameter)
+					return isP && p.Name() == "params"
+				}
+				pp, isP := v.(*ssa.Parameter)
+				return isP && pp.Name() == "path"
+			}) != nil
+			fromDetect := dependsOn(arg, func(v ssa.Value) bool {
+				pp, isP := v.(*ssa.Parameter)
+				return isP && pp.Name() == "detectionPath"
+			}) != nil
+			r.check(fromParams && !fromDetect, fmt.Sprintf("getMatch:CheckConstraint#%d:argument-is-captured-value", i), r.pos(c.Instr), "constraints are evaluated on the value stored in params (the one Params reports)",
+				"constraints are evaluated on a value derived from the normalised detection path, not on the captured value Params reports: with CaseSensitive=false /flag/:v<bool> accepts tRuE although the reported value violates the constraint")
+		}
 		// (ii) from the store of the captured value the next segment is reached only through
 		// the constraint loop's exit edge or the paramLen==0 edge.
 		stores := storesIntoParamIndex(f, "params")
